@@ -1,4 +1,7 @@
-(* C15: STAM CSV round trip preserves structure, targets and the text of values. *)
+(* C15: STAM CSV round trip preserves structure, targets and the text of values.
+   Model: Model/Csv.v (writer, reader) over Model/Store.v and the row decoder of Model/Loader.v;
+   specification: Spec/CsvSpec.v.  See notes/C15.md for what is proved and what is checked by
+   execution only. *)
 From Coq Require Import List NArith ZArith Bool Arith.
 Import ListNotations.
 From Stam Require Import Base.Sx Model.Offset Model.Store Model.Loader Model.Csv Spec.CsvSpec Proofs.Loader Proofs.Csv.
@@ -12,6 +15,79 @@ Proof. exact split_join. Qed.
 Theorem C15_column_shape : forall own l, own ++ push_all l = column_spec own l.
 Proof. exact push_all_join. Qed.
 
+(* every selector kind the writer can emit is accepted by the reader *)
+Theorem C15_kind_roundtrip : forall k, kind_of_str (kind_str k) = Ok k.
+Proof. exact kind_str_roundtrip. Qed.
+
+(* cursors of both alignments (incl. "-0") are read back, for every value of the integer types *)
+Theorem C15_cursor_codec : forall c, Proofs.Loader.cursor_wf c -> cursor_of_str (str_of_cursor c) = Ok c.
+Proof. exact cursor_roundtrip. Qed.
+
+(* the data columns: any number of (set, data) references is read back in order *)
+Theorem C15_data_columns : forall r ds, pairs_wf ds ->
+  c_data r = fst (data_columns ds) -> c_set r = snd (data_columns ds) -> data_of r = ds.
+Proof. exact data_of_columns. Qed.
+
+(* unpack (pack) for one row: any id, any number of data references, a simple selector of any
+   of the six kinds or a complex selector with any number of members of any mix of kinds *)
+Theorem C15_row_roundtrip : forall idcol ds k bs r, pairs_wf ds -> target_wf k bs ->
+  assemble idcol (data_columns ds) k (map member_of bs) = Some r ->
+  csv_row_now r = Ok {| Loader.ab_id := opt idcol; Loader.ab_data := ds;
+                        Loader.ab_target := Some (target_of k bs) |}.
+Proof. exact row_roundtrip. Qed.
+
+(* ... and for every live annotation of a store with well-formed ranges: the row the writer
+   packs decodes to the builder that names the annotation's id, data and, leaf by leaf, target *)
+Theorem C15_unpack_pack : forall s h a r, store_ok s = true -> get_ann s h = Some a ->
+  (a_kind a <> 0 -> a_leaves a <> []) -> pack_row s h a = Some r ->
+  exists bs ds, map_opt (leaf_build s) (a_leaves a) = Some bs /\ data_names s a = Some ds /\
+    csv_row_now r = Ok {| Loader.ab_id := opt (id_column h a); Loader.ab_data := ds;
+                          Loader.ab_target := Some (target_of (a_kind a) bs) |}.
+Proof. exact pack_row_decodes. Qed.
+
+(* offsets in all four alignments: written, parsed, resolved on a text of the same length they
+   give the same absolute range (through C04's report/resolve theorems) *)
+Theorem C15_offset_text : forall len b e m, b <= e -> e <= len -> fits len = true ->
+  exists cb ce,
+    cursor_pair (fst (off_strs (Some (report_resource len (b, e) m))))
+                (snd (off_strs (Some (report_resource len (b, e) m)))) = Ok (cb, ce)
+    /\ resource_ts len (mkoff (ocur cb) (ocur ce)) = Offset.Ok (b, e).
+Proof. exact offset_text_roundtrip. Qed.
+
+Theorem C15_offset_relative : forall pb pe b e m len, pb <= b -> b <= e -> e <= pe -> pe <= len -> fits len = true ->
+  exists off cb ce,
+    relative_offset (b, e) (pb, pe) m = Some off
+    /\ cursor_pair (fst (off_strs (Some off))) (snd (off_strs (Some off))) = Ok (cb, ce)
+    /\ selection_ts (pb, pe) (mkoff (ocur cb) (ocur ce)) = Offset.Ok (b, e).
+Proof. exact offset_relative_roundtrip. Qed.
+
+(* identifiers: an ordinary id is read as that id; a temporary id as the handle it names *)
+Theorem C15_name_plain : forall plain temp t, (plain =? 33)%N = false -> tok_fits t ->
+  ref_of_name plain temp (plain :: nat_dec t) = Some (ById t).
+Proof. exact ref_of_plain_name. Qed.
+Theorem C15_name_temp : forall plain temp h, tok_fits h ->
+  ref_of_name plain temp (temp_name temp h) = Some (ByHandle h).
+Proof. exact ref_of_temp_name. Qed.
+Theorem C15_name_set : forall t, tok_fits t -> set_ref_of_name (name_set t) = Some (ById t).
+Proof. exact set_ref_of_name_set. Qed.
+
+(* the known classes are real failures of the full property *)
+Theorem C15_tempid_refuted :
+  Known_C15_tempid (run tempid_ops) = true
+  /\ sx_of_loaded (roundtrip (run tempid_ops)) <> roundtrip_spec (run tempid_ops)
+  /\ Known_C15_tempid (run tempid_gap_ops) = true
+  /\ roundtrip (run tempid_gap_ops) = LErr.
+Proof. exact Known_C15_tempid_witness. Qed.
+Theorem C15_empty_complex_refuted :
+  Known_C15_empty_complex (run empty_complex_ops) = true
+  /\ length (live_items (anns (run empty_complex_ops))) = 1
+  /\ roundtrip (run empty_complex_ops) = LErr.
+Proof. exact Known_C15_empty_complex_witness. Qed.
+
+(* non-vacuity: a store with every selector kind, all alignments, a relative offset, a composite
+   with eight mixed members, typed values and a removed annotation satisfies the full property *)
 Example C15_nonvacuous :
-  split (push_all [[114; 48]; []; [114; 49]]%N) = [[]; [114; 48]; []; [114; 49]]%N.
-Proof. reflexivity. Qed.
+  known_class (run demo_ops) = 0 /\ store_ok (run demo_ops) = true
+  /\ sx_of_loaded (roundtrip (run demo_ops)) = roundtrip_spec (run demo_ops)
+  /\ length (live_items (anns (run demo_ops))) = 5.
+Proof. exact demo_roundtrip. Qed.
